@@ -205,6 +205,11 @@ type Sandbox struct {
 	leaks []string
 	// Style selects how raw segment sequences are spelled (0 literal, 1 encoded dots, 2 encoded slashes, 3 absolute form)
 	Style int
+	// Prefix: this sandbox is one client's private subtree of a shared served root (concurrency runs): request paths
+	// are prefixed with it, reported hrefs must lie below it and are stripped, Root is the subtree's directory.
+	Prefix []string
+	// Shared: other clients work next to this subtree, so the surroundings are not compared
+	Shared bool
 }
 
 // The served root sits below a chain of padding directories that is longer than the largest number of ".." any
@@ -427,6 +432,17 @@ func EscapePath(segs []string) string {
 	return b.String()
 }
 
+// EscapePathRaw is EscapePath for already concrete segments (client API names).
+func EscapePathRaw(segs []string) string {
+	if len(segs) == 0 {
+		return "/"
+	}
+	return "/" + strings.Join(segs, "/")
+}
+
+// CopyLeaks shares the leak strings of the sandbox that owns the scratch directory.
+func (sb *Sandbox) CopyLeaks(o *Sandbox) { sb.leaks = o.leaks }
+
 // Spell renders raw segments as a request target / Destination in the given style.
 func Spell(segs []string, style int) string {
 	if len(segs) == 0 {
@@ -456,9 +472,10 @@ func Spell(segs []string, style int) string {
 }
 
 func (sb *Sandbox) concSegs(p []string) []string {
-	out := make([]string, len(p))
-	for i, s := range p {
-		out[i] = sb.NM.Conc(s)
+	out := make([]string, 0, len(p)+len(sb.Prefix))
+	out = append(out, sb.Prefix...)
+	for _, s := range p {
+		out = append(out, sb.NM.Conc(s))
 	}
 	return out
 }
@@ -694,10 +711,21 @@ func (sb *Sandbox) HrefSegs(href string) ([]string, string) {
 	if !strings.HasPrefix(p, "/") {
 		return []string{}, "relative"
 	}
-	if p == "/" {
+	if p == "/" && len(sb.Prefix) == 0 {
 		return []string{}, "ok"
 	}
 	segs := strings.Split(p[1:], "/")
+	if len(sb.Prefix) > 0 {
+		if len(segs) < len(sb.Prefix) {
+			return []string{}, "outside-prefix"
+		}
+		for i, x := range sb.Prefix {
+			if segs[i] != x {
+				return []string{}, "outside-prefix"
+			}
+		}
+		segs = segs[len(sb.Prefix):]
+	}
 	for i, s := range segs {
 		segs[i] = sb.NM.Abs(s)
 	}
@@ -903,7 +931,9 @@ func (sb *Sandbox) Exec(h http.Handler, r Req, from string, pre []Entry, variant
 		}
 	}
 	st.Leak, st.Secret = sb.Leaks(s)
-	st.Outside = sb.OutsideState()
+	if !sb.Shared {
+		st.Outside = sb.OutsideState()
+	}
 	post := sb.Snapshot()
 	if SameTree(pre, post) {
 		st.Same = true
